@@ -80,12 +80,18 @@ func main() {
 	if os.Getenv("ALLIANCECHECK_DEBUG_INLINE") != "" {
 		fmt.Fprintf(os.Stderr, "inlined: %v\nnotes: %v\ndead: %v\n", e.Inlined, e.InlineNotes, e.DeadHelpers)
 	}
-	if *dump == "renamelocals" || *dump == "renameall" {
+	if *dump == "renamelocals" || *dump == "renameall" || *dump == "swapbranches" || *dump == "indexloops" {
 		if *dir == "/repo" {
 			fmt.Println("refusing to rewrite /repo: use a scratch copy")
 			os.Exit(2)
 		}
-		renameLocals(e, *dump == "renameall")
+		if *dump == "swapbranches" {
+			swapBranches(e)
+		} else if *dump == "indexloops" {
+			indexLoops(e)
+		} else {
+			renameLocals(e, *dump == "renameall")
+		}
 		return
 	}
 	if *dump == "params" {
